@@ -94,6 +94,11 @@ func Parse(in *bytes.Buffer) (defs []*RouteDef, err error) {
 		}
 		defs = append(defs, def)
 	}
+	// a line which is too long for the scanner ends the scan. Without this
+	// check that line and all lines after it were dropped silently.
+	if err := scanner.Err(); err != nil {
+		return nil, fmt.Errorf("line %d: %s", i+1, err)
+	}
 	return defs, nil
 }
 
